@@ -139,6 +139,47 @@ def run(ctx):
                                       {"W": W, "first_call_lengths": [len(s) for s in series], "second_call_lengths": [len(s) for s in other]})
                         break
             ctx.count("stack")
+        # (b') the series are views into ONE recording (devices interleaved row by row, or side by side in the columns):
+        # judged by definition on identity-tagged cells - cell (i, j*N + c) of the block of series k must be row i+j of series k
+        for rep in range(ctx.budget(24, 120)):
+            W = int(rng.integers(1, 6)); N = int(rng.integers(1, 4)); ns = int(rng.integers(2, 5)); L = int(rng.integers(W, W + 9))
+            kind = ["interleaved", "side-by-side", "every-other-row"][rep % 3]
+            tag = lambda k, r, c: float(k * 1000000 + r * 1000 + c)   # noqa: E731
+            if kind == "interleaved":
+                recb = np.empty((L * ns, N))
+                for k in range(ns):
+                    for r in range(L):
+                        recb[r * ns + k] = [tag(k, r, c) for c in range(N)]
+                series = [recb[k::ns] for k in range(ns)]
+            elif kind == "side-by-side":
+                recb = np.empty((L, N * ns))
+                for k in range(ns):
+                    for r in range(L):
+                        recb[r, k * N:(k + 1) * N] = [tag(k, r, c) for c in range(N)]
+                series = [recb[:, k * N:(k + 1) * N] for k in range(ns)]
+            else:
+                recb = np.full((2 * L * ns, N), -1.0)
+                for k in range(ns):
+                    for r in range(L):
+                        recb[2 * (k * L + r)] = [tag(k, r, c) for c in range(N)]
+                series = [recb[2 * k * L:2 * (k + 1) * L:2] for k in range(ns)]
+            case = {"W": W, "N": N, "series": ns, "rows": L, "views": kind}
+            with ctx.guard("stack_training_data_multiple_series (views of one recording)", case):
+                out = dp.stack_training_data_multiple_series(series, W)
+                rows_per = L - W + 1
+                bad = None
+                if out.shape != (ns * rows_per, N * W):
+                    bad = "shape %s" % (out.shape,)
+                else:
+                    for k in range(ns):
+                        for i in range(rows_per):
+                            for j in range(W):
+                                for c in range(N):
+                                    if out[k * rows_per + i, j * N + c] != tag(k, i + j, c):
+                                        bad = bad or "window %d of series %d holds %r where row %d of that series belongs" % (i, k, float(out[k * rows_per + i, j * N + c]), i + j)
+                if bad:
+                    ctx.violation("monitor", "a stacked window mixes rows of two series (series given as %s views of one recording): %s" % (kind, bad), {"case": case})
+            ctx.count("stack-views")
         # the labelling step given beta * mask: labels and reported cost must be those of labelling every series on its own
         # (what C07_masked_is_separable says about the model), on small integer tables (exact)
         from fast_ticc.cluster_label_assignment import assign_point_cluster_labels as kernel
